@@ -3,12 +3,14 @@ import os, re, json, subprocess, itertools
 from fractions import Fraction
 from concurrent.futures import ThreadPoolExecutor
 import coqterm
+from props.c17_lkhf import lkh_repaired
 
 ID = 'C17'
 HARNESS = 'c17'
-COQ_IMPORTS = ('From Coq Require Import QArith.\nFrom VRP Require Import Base.Tac Model.Dbscan Model.Lkh Model.KMedoids Model.ClusterWrappers.\n'
+SUBSTREAMS = ['c17_lkhf']
+COQ_IMPORTS = ('From Coq Require Import QArith.\nFrom VRP Require Import Base.Tac Model.Dbscan Model.Lkh Model.LkhG Model.KMedoids Model.ClusterWrappers.\n'
                'Local Open Scope Z_scope.')
-MODEL_TARGETS = ['theories/Model/Dbscan.vo', 'theories/Model/Lkh.vo', 'theories/Model/KMedoids.vo', 'theories/Model/ClusterWrappers.vo']
+MODEL_TARGETS = ['theories/Model/Dbscan.vo', 'theories/Model/Lkh.vo', 'theories/Model/LkhG.vo', 'theories/Model/KMedoids.vo', 'theories/Model/ClusterWrappers.vo']
 MODEL_NEEDS_IMPL = True     # the job-cluster model is evaluated on the neighbourhoods the public Jobs::neighbors API reported
 EXTRA_COQ_TARGETS = list(MODEL_TARGETS)
 SIZES = {'quick': 1500, 'thorough': 12000, 'search': 6000}
@@ -41,10 +43,13 @@ TRUSTED = ['f64 arithmetic on integer-valued costs/distances below 2^53 is exact
            'rayon chunking of fold_reduce is an oracle argument of the model; the harness pins it with a 1-thread pool (two halves) for exact comparison and also runs the default pool for the contract oracle',
            'analyze stream: the oracle mirrors estimate_epsilon operation by operation in IEEE doubles (Python floats) and otherwise only compares floats',
            'job clusters: the neighbourhood rows are those the public Jobs::neighbors API reports (the job index itself is an input, not modelled); index costs are integers below 2^24 (exact in f32); the estimated epsilon is modelled over exact rationals, the generators only ask for it where all divisors (taken neighbours + 1, number of profiles) are powers of two, and Point::distance_to_line divides all cross products by the same positive length so `>` orders like the exact absolute cross products']
-ASSUMPTIONS = ['LKH cost and termination clauses (C17_lkh_cost, C17_lkh_terminates): symmetric cost matrix (the property quantifies over '
-               'symmetric matrices only), duplicate-free input path, hash order returns entries of the map',
-               'LKH cost / termination are proved over exact integer costs (Z), not over f64 rounding: with non-representable costs or '
-               'sums above 2^53 a positive computed gain need not be a real decrease']
+ASSUMPTIONS = ['LKH cost and termination clauses over exact costs (C17_lkh_cost, C17_lkh_terminates, C17_lkh_repaired_cost): symmetric cost matrix '
+               '(the property quantifies over symmetric matrices only), duplicate-free input path, hash order returns entries of the map',
+               'LKH over f64 costs that are not integers: termination of the code as it is is REFUTED (C17_lkh_float_termination_refuted, finding '
+               'C17-F4); permutation / start / termination of one improve call hold for every cost arithmetic '
+               '(C17_lkh_permutation_any_arithmetic, C17_lkh_improve_terminates_any_arithmetic); the proposed repair terminates for every cost '
+               'arithmetic (C17_lkh_repaired_terminates); the cost clause over f64 is only validated (exact comparison of sums of square roots / '
+               'decimal fractions in the oracle of sub-stream c17_lkhf), not proved']
 
 # ------------------------------------------------------------------ rendering helpers
 def nl(xs):
@@ -556,7 +561,9 @@ def model_term(c, impl=None):
     if op == 'dbscan':
         return 'run_dbscan %s %d%%nat %s' % (nll(c['nbr']), c['minp'], nl(c['pts']))
     if op == 'lkh':
-        return 'run_lkh %s %s %s' % (zll(c['cost']), nll(c['nbr']), nl(c['path']))
+        # the code as it is (KOpt::solutions = the current tour only) or the repair notes/patches/C17-lkh-termination.diff
+        # (every discovered tour is kept and returned): decided by reading kopt.rs of the tree under test
+        return '%s %s %s %s' % ('run_lkh_repaired' if lkh_repaired() else 'run_lkh', zll(c['cost']), nll(c['nbr']), nl(c['path']))
     if op == 'kmedoids':
         if c.get('threads', 1) != 1:
             return None        # default pool: chunking not pinned, contract oracle only
@@ -645,8 +652,9 @@ def compare(c, impl, model):
             return None
         if code != 0:
             return 'model ran out of fuel (code %d)' % code
-        if impl['paths'] != [path]:
-            return 'paths: impl %s model %s' % (impl['paths'], [path])
+        expected = path if lkh_repaired() else [path]       # repaired: all discovered tours, the input first
+        if impl['paths'] != expected:
+            return 'paths: impl %s model %s' % (impl['paths'], expected)
         return None
     if op == 'kmedoids':
         if 'panic' in impl:
@@ -1127,9 +1135,9 @@ def checker_term(c, impl):
     if c['op'] == 'dbscan':
         return 'check_dbscan %s %d%%nat %s %s' % (nll(c['nbr']), c['minp'], nl(c['pts']), nll(impl['clusters']))
     if c['op'] == 'lkh':
-        if impl.get('timeout') or impl.get('skipped') or len(impl['paths']) != 1 or len(set(c['path'])) != len(c['path']) or not is_symmetric(c['cost']):
+        if impl.get('timeout') or impl.get('skipped') or not impl['paths'] or len(set(c['path'])) != len(c['path']) or not is_symmetric(c['cost']):
             return None
-        return 'check_lkh %s %s %s' % (zll(c['cost']), nl(c['path']), nl(impl['paths'][0]))
+        return 'check_lkh %s %s %s' % (zll(c['cost']), nl(c['path']), nl(impl['paths'][-1]))   # the tour the callers take: .last()
     if c['op'] == 'kmedoids':
         return 'check_kmedoids %s %s %s' % (zll(c['dist']), nl(c['pts']), cmap_term(impl['clusters']))
     if c['op'] == 'hkmedoids' and impl['tiers']:
@@ -1154,7 +1162,7 @@ def checker_failure_class(c, impl, value):
             if code == 1:
                 out.append('lkh-not-permutation')
             elif code == 2:
-                inp, o = c['path'], impl['paths'][0]
+                inp, o = c['path'], impl['paths'][-1]
                 out.append('lkh-start-moved-to-node-0:input-path-not-starting-at-node-0' if inp and o and inp[0] != 0 and o[0] == 0 else 'lkh-start-changed')
             else:
                 out.append('lkh-cost-increased')
@@ -1248,12 +1256,16 @@ def shrink_candidates(c):
                 yield d
 
 
-MANIFEST_TEXT = ('Machine-checked proof (Coq, no axioms) over executable models of dbscan::create_clusters, lkh (Tour, KOpt), '
-                 'k-medoids (create_kmedoids / create_hierarchical_kmedoids, directed distance function) and of the wrappers the '
-                 'solver uses (construction::clustering::dbscan::create_job_clusters incl. the epsilon estimate, '
-                 'construction::clustering::kmedoids::create_multi_tier_clusters); models tied to /repo on every run by vm_compute '
-                 'evaluation on the same generated inputs as the real public functions (the job-level wrapper on a real Problem, also '
-                 'through Jobs::clusters()), and contract checkers (verified boolean checkers in Coq for the algorithms, a Python '
-                 'oracle with the directed distance / the constructed neighbourhood for the wrappers) evaluated on the implementation outputs.')
+MANIFEST_TEXT = ('Machine-checked proof (Coq, no axioms) over executable models of dbscan::create_clusters, lkh (Tour, KOpt; over exact integer costs '
+                 'and, generically, over any cost arithmetic incl. IEEE binary64 = Coq primitive floats), k-medoids (create_kmedoids / '
+                 'create_hierarchical_kmedoids, directed distance function) and of the wrappers the solver uses '
+                 '(construction::clustering::dbscan::create_job_clusters incl. the epsilon estimate, '
+                 'construction::clustering::kmedoids::create_multi_tier_clusters, solver::search::lkh_search optimize_route / CostMatrix / '
+                 'rearrange_route); models tied to /repo on every run by vm_compute evaluation on the same generated inputs as the real '
+                 'public functions (the job-level wrapper on a real Problem, also through Jobs::clusters(); lkh_optimize on integer and on '
+                 'non-integer f64 costs under a deterministic call budget; LKHSearch::search on a real Problem), and contract checkers '
+                 '(verified boolean checkers in Coq for the algorithms, a Python oracle with the directed distance / the constructed '
+                 'neighbourhood / exact square-root arithmetic for the wrappers and the float stream) evaluated on the implementation outputs. '
+                 'Termination of lkh_optimize over f64 is refuted (finding C17-F4) and proved for the proposed repair.')
 MANIFEST_NOTE = 'see notes/C17.md'
 MANIFEST_TECHNIQUE = 'Coq proof over executable model + vm_compute differential correspondence with the Rust implementation'
